@@ -49,6 +49,26 @@ type SnapOpts struct {
 // Snapshot walks vfs from root using Lstat, ReadDir, ReadFile, Readlink and SameFile.
 // The walk is the harness's own (it never trusts WalkDir) and is bounded.
 func Snapshot(vfs avfs.VFS, root string, o SnapOpts) *Snap {
+	if Guard == nil {
+		return snapshot(vfs, root, o)
+	}
+
+	// under the simulator's step budget: a library call that never returns during the observation
+	// (an endless retry, a cycle) ends the observation instead of the worker.
+	var s *Snap
+
+	if why := Guard(func() { s = snapshot(vfs, root, o) }); why != "" || s == nil {
+		return &Snap{Problems: []string{"the observation of the tree did not return: " + why}}
+	}
+
+	return s
+}
+
+// Guard, when set, runs an observation under the simulator (step budget, panic recovery) and returns ""
+// or why it did not complete.
+var Guard func(f func()) string //nolint:gochecknoglobals // set once at start by package sim.
+
+func snapshot(vfs avfs.VFS, root string, o SnapOpts) *Snap {
 	s := &Snap{}
 	if o.Budget == 0 {
 		o.Budget = 600
